@@ -240,6 +240,19 @@ def build_harness():
         return rc == 0, out[-6000:]
 
 
+CLI_BIN = os.path.join(VERIF, ".cache", "target-cli", "debug", "corrosion")
+
+
+def build_cli():
+    """the `corrosion` command line binary, built from /repo's working tree (C19 drives the real
+    backup / restore commands)"""
+    with Lock("cargo-cli"):
+        rc, out = sh(["cargo", "build", "-p", "klukai", "--bin", "corrosion", "--offline",
+                      "--target-dir", os.path.join(VERIF, ".cache", "target-cli")], cwd=REPO, timeout=3000,
+                     env=dict(os.environ, CARGO_NET_OFFLINE="true"))
+        return rc == 0, out[-6000:]
+
+
 # --------------------------------------------------------------------------
 # running cases
 
